@@ -91,7 +91,14 @@ func runC07(w *World, r *Report) {
 			}}, arm)
 			r.Check(!commit, "C07.three-way", construct+" must-not arm", ifMustNot.Pos(), "returns an error, no commit reachable", "the must-not arm can continue to a commit or a nil-error return: "+wit)
 		}
-		if ifMay == nil {
+		// the "may" outcome needs an interface-typed SOURCE type; the dynamic type of a value (reflect.TypeOf(v)) never is one
+		srcIsDynamic := false
+		if tc, ok := c.Common().Args[0].(*ssa.Call); ok && calleeFullName(tc) == "reflect.TypeOf" {
+			srcIsDynamic = true
+		}
+		if ifMay == nil && srcIsDynamic {
+			r.OK("C07.three-way", construct+" may arm", c.Pos(), "the source type is the dynamic type of a value known at compile time (reflect.TypeOf): never an interface, the may outcome cannot occur")
+		} else if ifMay == nil {
 			r.Fail("C07.three-way", construct+" may arm", c.Pos(), "result is never compared with assignableTypeMay: an interface-typed connection gets no run-time check (the consumer's type assertion would panic)")
 		} else {
 			arm := ifMay.Block().Succs[0]
@@ -700,6 +707,9 @@ func runC07(w *World, r *Report) {
 	unpackRefusalChecks(w, r, "C07.converter-is-checker")
 	// the type / helper getters answer from what the node is NOW: they keep nothing (a pass-through node's helper is
 	// provisional until its type is inferred; a memoised provisional helper outlives the inference)
+	r.Rule("C07.static-values-typed", "a static value set on a node is type-checked against the node's input type at Compile, like a mapping whose source type is the value's (shared with C15): both types are known and concrete when the workflow is declared", 1)
+	staticValuesTypeChecked(w, r, "C07.static-values-typed")
+
 	r.Rule("C07.getters-pure", "no get… / is… / input… / output… method of the builder types (graph, graphNode, composableRunnable, genericHelper, Chain, Workflow) stores into its receiver: what they answer follows later type inference", 5)
 	{
 		n := 0
